@@ -34,6 +34,11 @@ func (sc *c30Scope) access(e ast.Expr) (c30Access, bool) {
 	root, path := fieldPath(sc.F, e)
 	v := varOf(sc.F, resolveLocal(sc.F, root))
 	if v == nil {
+		// a local defined once by an expression that is not itself a location (e := &event{…}, t := f()):
+		// the local is the root
+		v = varOfRaw(sc.F, root)
+	}
+	if v == nil {
 		return c30Access{Path: path}, len(path) > 0
 	}
 	if b, ok := sc.Bind[v]; ok {
@@ -100,7 +105,11 @@ type c30Namer func(sc *c30Scope, e ast.Expr) string
 func c30ImpliesN(sc *c30Scope, ft core.Fact, want core.LinCmp, atom c30Namer, depth int) bool {
 	namer := func(e ast.Expr) string { return atom(sc, e) }
 	if lc, ok := core.NormLinCmp(sc.F.Info(), ft, namer); ok && lc.Equal(want) {
-		return true
+		// rewriting a comparison arithmetically (a > m - h  <=>  h + a > m) is valid only while no operand
+		// wraps around: a difference of unsigned amounts does as soon as the subtrahend is the larger one
+		// (capacity - held after Terminate has zeroed the capacity), so a test written with one does not
+		// establish the comparison
+		return c30UnsignedSub(sc.F, ft.Expr) == nil
 	}
 	if depth <= 0 {
 		return false
@@ -163,6 +172,44 @@ func c30ImpliesN(sc *c30Scope, ft core.Fact, want core.LinCmp, atom c30Namer, de
 		}
 	}
 	return true
+}
+
+// c30UnsignedSub finds a subtraction of non-constant unsigned integers in e (nil if there is none).
+func c30UnsignedSub(f *core.FuncInfo, e ast.Expr) *ast.BinaryExpr {
+	var found *ast.BinaryExpr
+	ast.Inspect(e, func(n ast.Node) bool {
+		if found != nil {
+			return false
+		}
+		if _, ok := n.(*ast.FuncLit); ok {
+			return false
+		}
+		be, ok := n.(*ast.BinaryExpr)
+		if !ok || be.Op != token.SUB {
+			return true
+		}
+		tv, ok := f.Info().Types[be]
+		if !ok || tv.Value != nil {
+			return true
+		}
+		if b, ok := tv.Type.Underlying().(*types.Basic); ok && b.Info()&types.IsUnsigned != 0 {
+			found = be
+		}
+		return true
+	})
+	return found
+}
+
+// c30WrapHint names the unsigned subtraction in a branch condition of f, if any (for failure messages).
+func c30WrapHint(f *core.FuncInfo) string {
+	for _, b := range f.CFG().Blocks {
+		if cond := f.BranchCond(b); cond != nil {
+			if be := c30UnsignedSub(f, cond); be != nil {
+				return " (the test at " + f.P.Pos(be.Pos()) + " computes `" + exprStr(be) + "` in unsigned arithmetic: it wraps around when the subtrahend is larger, e.g. capacity - held after Terminate zeroed the capacity while an amount is held, and the request is then granted)"
+			}
+		}
+	}
+	return ""
 }
 
 // c30Guarded: every path of f from its entry to `to` takes an edge that establishes `want`.
